@@ -137,7 +137,9 @@ FullRange(c, nt) ==
                 fj  == CHOOSE j \in run : \A k \in run : j <= k
             IN <<c.seq[fj], c.seq[lj]>>
 
-Init == /\ upl \in UploadSets /\ sw \in Windows
+\* the instance (upload sequences, window) is chosen by the first step, not in Init: TLC's simulation mode
+\* becomes very slow with hundreds of initial states
+Init == /\ upl = [t \in Tracks |-> <<>>] /\ sw = 0
         /\ pos = [t \in Tracks |-> 0] /\ reg = InitOrder /\ bufs = [t \in Tracks |-> NoBuf]
         /\ ctr = NewCtr(InitWindow) /\ started = FALSE /\ nrTracks = 0 /\ latest = 0
         /\ genWindow = InitWindow /\ masterDur = 0 /\ mpd = <<>> /\ mpdReps = {} /\ panic = FALSE /\ why = ""
@@ -149,16 +151,20 @@ Registered == Range(reg)
 FirstReps == { reg[i] : i \in { j \in DOMAIN reg : \A k \in 1..(j - 1) : ASOf[reg[k]] # ASOf[reg[j]] } }
 Rec(t, n) == IF RecordHist THEN Append(hist, [t |-> t, n |-> n]) ELSE hist
 
+Choose == /\ sw = 0 /\ upl' \in UploadSets /\ sw' \in Windows
+          /\ UNCHANGED <<pos, reg, bufs, ctr, started, nrTracks, latest, genWindow, masterDur, mpd, mpdReps,
+                         panic, why, files, listedBad, post, hist>>
+
 \* the init segment of a late track arrives (addInitDataAndUpdateTimescale: a Representation is appended)
 Register(t) ==
-  /\ ~panic /\ t \in Late /\ t \notin Registered
+  /\ sw # 0 /\ ~panic /\ t \in Late /\ t \notin Registered
   /\ reg' = Append(reg, t) /\ hist' = Rec(t, 0)
   /\ UNCHANGED <<upl, sw, pos, bufs, ctr, started, nrTracks, latest, genWindow, masterDur, mpd, mpdReps,
                  panic, why, files, listedBad, post>>
 
 \* one media segment of track t: handler (store, delete number s - maxNrBufSegs) + receivedSegData of the complete record
 Process(t) ==
-  /\ ~panic /\ pos[t] < Len(upl[t])
+  /\ sw # 0 /\ ~panic /\ pos[t] < Len(upl[t])
   /\ LET s == upl[t][pos[t] + 1] IN
      /\ pos' = [pos EXCEPT ![t] = @ + 1] /\ hist' = Rec(t, s)
      /\ UNCHANGED <<upl, sw, reg>>
@@ -210,10 +216,10 @@ Process(t) ==
                                 /\ nrTracks' = Cardinality({u \in Tracks : bs1[u].made})   \* frozen here
                       ELSE /\ bufs' = bs1 /\ ctr' = c1
                            /\ UNCHANGED <<started, nrTracks, genWindow, masterDur>>
-Next == \E t \in Tracks : Process(t) \/ Register(t)
+Next == Choose \/ \E t \in Tracks : Process(t) \/ Register(t)
 Spec == Init /\ [][Next]_vars
 
-Terminal == panic \/ (\A t \in Tracks : pos[t] = Len(upl[t]) /\ t \in Registered)
+Terminal == sw # 0 /\ (panic \/ (\A t \in Tracks : pos[t] = Len(upl[t]) /\ t \in Registered))
 
 (* ---- the C17 clauses on the explorer ---- *)
 NoPanic == ~panic                                                        \* C17.progress
@@ -224,7 +230,7 @@ NoPanicStartDiv0 == why # "start.div0"
 \* the usual arrival order: every track has delivered its first segment before the master's second (state constraint)
 FirstBeforeSecond == pos[Master] >= 2 => \A t \in Tracks : pos[t] >= 1 /\ t \in Registered
 \* (TLC evaluates invariants also on states that fail the constraint, hence the guards)
-SyncNoPanic == FirstBeforeSecond => ~panic
+SyncNoPanic == (pos[Master] >= 2 => \A t \in Tracks : pos[t] >= 1 /\ t \in Range(reg)) => ~panic
 Listed == ~listedBad                                                     \* C17.listed (files of every Representation at publication)
 NewestMono == [][latest' >= latest /\ (mpd # <<>> /\ mpd' # <<>> => mpd'[2] >= mpd[2])]_vars      \* C17.newest
 BoundedBuf == /\ \A t \in Tracks : bufs[t].made => bufs[t].n <= Len(bufs[t].items) /\ BufBounded(bufs[t].n, Len(bufs[t].items), genWindow)
